@@ -29,7 +29,7 @@ static sf_count_t cb_len (void *u)
 }
 
 static sf_count_t cb_seek (sf_count_t offset, int whence, void *u)
-{	MemDev *md = u ; sf_count_t target, f, ans ; CB_ENTER ;
+{	MemDev *md = u ; sf_count_t target, f, ans, before = md->pos ; CB_ENTER ;
 	switch (whence)
 	{	case SEEK_SET : target = offset ; break ;
 		case SEEK_CUR : target = md->pos + offset ; break ;
@@ -39,7 +39,7 @@ static sf_count_t cb_seek (sf_count_t offset, int whence, void *u)
 	if (! md->seekable || target < 0) ans = -1 ;
 	else { md->pos = target ; ans = target ; }
 	if (md->fault && md->fault (md, MD_SEEK, offset, &f, md->fault_user))
-	{	if (f == -1) { if (ans >= 0) md->pos = md->pos ; ans = -1 ; }
+	{	if (f == -1) { md->pos = before ; ans = -1 ; }	/* fails without moving, like lseek */
 		else if (f == -2 && ans >= 0) ans = ans + 1 ;
 		}
 	md_account (md, MD_SEEK, offset, whence, ans) ;
@@ -74,7 +74,7 @@ static sf_count_t cb_write (const void *ptr, sf_count_t count, void *u)
 	{	if (f < 0) f = 0 ; if (f < n) n = f ; }
 	off = md->pos ;
 	if (n > 0)
-	{	if (md->pos + n > (sf_count_t) 1 << 31) { n = 0 ; }
+	{	if (md->pos + n > (sf_count_t) 1 << 28) { n = 0 ; }	/* device full: a legitimate short answer */
 		else
 		{	md_grow (md, md->pos + n) ;
 			if (md->pos > md->len) memset (md->data + md->len, 0, md->pos - md->len) ;
